@@ -7,6 +7,7 @@ package main
 // Part (d): watches lost with their informer, and plain sequential histories.
 
 import (
+	"context"
 	"fmt"
 	"math/rand/v2"
 	"time"
@@ -235,7 +236,15 @@ func runSequential(s *sink, c *kit.Ctx, i int, st *detStats) {
 func runReestablish(s *sink, c *kit.Ctx, i int, st *detStats) {
 	caseName := fmt.Sprintf("reestablish/%d", i)
 	rng := c.Rng("reestablish", i)
-	variant := []string{"single-controller", "two-controllers-share-kind", "cache-read-before-startwatches", "startwatches-during-removal"}[i%4]
+	variant := []string{"single-controller", "two-controllers-share-kind", "cache-read-before-startwatches", "startwatches-during-removal", "crd-deleted-startwatches-during-removal"}[i%5]
+	// crd-deleted-...: the informers go because the kind's CRD is deleted - the engine's own
+	// custom-resource informer garbage collector removes them, version by version - and the start
+	// request arrives while the collector is at the CRD's OTHER version
+	viaCRD := variant == "crd-deleted-startwatches-during-removal"
+	const otherVersion = "v9other"
+	if viaCRD {
+		variant = "startwatches-during-removal"
+	}
 	a, b := ctrlNames[rng.IntN(3)], ""
 	names := []string{a}
 	w := newWorld(worldPlain, &staticClient{items: map[schema.GroupKind][]map[string]any{}})
@@ -281,6 +290,12 @@ func runReestablish(s *sink, c *kit.Ctx, i int, st *detStats) {
 		byGVK := map[gvkT]engine.WatchID{}
 		for _, x := range was {
 			byGVK[x.GVK] = x
+			if viaCRD {
+				delete(byGVK, x.GVK)
+				o := x.GVK
+				o.Version = otherVersion
+				byGVK[o] = x
+			}
 		}
 		w.fc.mu.Lock()
 		w.fc.beforeRemove = func(gvk gvkT) {
@@ -303,8 +318,22 @@ func runReestablish(s *sink, c *kit.Ctx, i int, st *detStats) {
 		}
 		w.fc.mu.Unlock()
 	}
+	if viaCRD {
+		gcCtx, stopGC := context.WithCancel(bg)
+		defer stopGC()
+		if err := w.eng.GarbageCollectCustomResourceInformers(gcCtx); err != nil {
+			s.Inconclusive("reestablish: cannot start the engine's custom resource informer garbage collector: " + err.Error())
+			return
+		}
+	}
 	for _, x := range was {
-		if rm[x.GVK] {
+		if rm[x.GVK] && viaCRD {
+			if n := r0.CRDDeleted(x.GVK, otherVersion); n != 1 {
+				s.Inconclusive(fmt.Sprintf("reestablish: %d handlers on the CRD informer, want the engine's one", n))
+				return
+			}
+			s.Count("reestablish.crd_delete_events_delivered", 1)
+		} else if rm[x.GVK] {
 			_ = r0.RemoveInformer(x.GVK)
 		}
 	}
@@ -388,6 +417,9 @@ func runReestablish(s *sink, c *kit.Ctx, i int, st *detStats) {
 	s.Eval(fmt.Sprintf("reestablish|%s|%s|%v|%v", variant, a, widStrs(was), fmt.Sprint(rm)), false)
 	s.Count("reestablish.cases", 1)
 	s.Count("reestablish."+variant, 1)
+	if viaCRD {
+		s.Count("reestablish.via-crd-deletion", 1)
+	}
 	opsByType(all, st.ops)
 }
 
